@@ -35,6 +35,10 @@ pub struct Case {
     /// raw-peer script through the UDP relay: 0 direct, 1 10 % loss, 2 reordering
     #[serde(default)]
     pub relay: u8,
+    /// build the wtransport endpoint through the library's default builder path (default
+    /// transport configuration) instead of a custom transport
+    #[serde(default)]
+    pub default_config: bool,
 }
 
 pub fn case_strategy() -> impl Strategy<Value = Case> {
@@ -48,8 +52,9 @@ pub fn case_strategy() -> impl Strategy<Value = Case> {
         prop_oneof![Just(0u32), Just(1), any::<u32>()],
         "[a-zA-Z0-9 ]{0,24}",
         prop_oneof![3 => Just(0u8), 1 => Just(1u8), 1 => Just(2u8)],
+        any::<bool>(),
     )
-        .prop_map(|(flavor, wt_is_server, variant, mut items, datagrams, close_capsule, code, reason, relay)| {
+        .prop_map(|(flavor, wt_is_server, variant, mut items, datagrams, close_capsule, code, reason, relay, default_config)| {
             // at least one healthy and one stalled item
             if !items.iter().any(|i| !i.stalled) {
                 items.push(Item { stalled: false, bidi: items[0].bidi, pos: 0 });
@@ -57,7 +62,7 @@ pub fn case_strategy() -> impl Strategy<Value = Case> {
             if !items.iter().any(|i| i.stalled) {
                 items.insert(0, Item { stalled: true, bidi: items[0].bidi, pos: 0 });
             }
-            Case { flavor, wt_is_server, variant, items, datagrams, close_capsule, code, reason, relay }
+            Case { flavor, wt_is_server, variant, items, datagrams, close_capsule, code, reason, relay, default_config }
         })
 }
 
@@ -158,6 +163,7 @@ async fn exec_async(case: Arc<Case>) -> CaseResult {
     let shared = Arc::new(Mutex::new(Shared::default()));
     let healthy_idx: Vec<usize> = case.items.iter().enumerate().filter(|(_, i)| !i.stalled).map(|(k, _)| k).collect();
     let mut held: Vec<Box<dyn std::any::Any + Send>> = Vec::new();
+    let mut window_filled = false;
     let expect_close;
     let app_conn: Connection;
     let _keep: Box<dyn std::any::Any + Send>;
@@ -260,7 +266,8 @@ async fn exec_async(case: Arc<Case>) -> CaseResult {
                 (Err(e), _) | (_, Err(e)) => return CaseResult::Skip(e),
             }
         } else if case.wt_is_server {
-            match raw_client_vs_wt_server(&Tuning::default(), &Tuning::default()).await {
+            let setup = if case.default_config { raw_client_vs_default_wt_server(&Tuning::default()).await } else { raw_client_vs_wt_server(&Tuning::default(), &Tuning::default()).await };
+            match setup {
                 Ok(p) => {
                     let RawClientVsWt { server_ep, server, raw } = p;
                     let RawClientSession { endpoint, conn, control, req_send, req_recv, session_id, .. } = raw;
@@ -269,7 +276,8 @@ async fn exec_async(case: Arc<Case>) -> CaseResult {
                 Err(e) => return CaseResult::Skip(e),
             }
         } else {
-            match wt_client_vs_raw_server(&Tuning::default(), &Tuning::default()).await {
+            let setup = if case.default_config { default_wt_client_vs_raw_server(&Tuning::default()).await } else { wt_client_vs_raw_server(&Tuning::default(), &Tuning::default()).await };
+            match setup {
                 Ok(p) => {
                     let WtClientVsRaw { client_ep, client, raw_ep, raw } = p;
                     let RawServerSession { conn, control, req_send, req_recv, session_id, .. } = raw;
@@ -309,7 +317,37 @@ async fn exec_async(case: Arc<Case>) -> CaseResult {
                 if !bytes.is_empty() {
                     let _ = s.write_all(&bytes).await;
                 }
-                held.push(Box::new((s, r)));
+                if it.pos % 4 == 3 && k % 2 == 0 {
+                    // "unread data up to the flow-control window": keep writing until the stream's
+                    // window (1.25 MB by default) is exhausted; the application never reads it
+                    let progress = Arc::new(std::sync::atomic::AtomicUsize::new(0));
+                    let p2 = progress.clone();
+                    let filler = tokio::spawn(async move {
+                        let chunk = vec![0x55u8; 64 * 1024];
+                        loop {
+                            match s.write(&chunk).await {
+                                Ok(n) => {
+                                    p2.fetch_add(n, std::sync::atomic::Ordering::Relaxed);
+                                }
+                                Err(_) => break,
+                            }
+                        }
+                    });
+                    // wait until the writer makes no progress any more (blocked on flow control)
+                    let mut last = usize::MAX;
+                    for _ in 0..200 {
+                        tokio::time::sleep(Duration::from_millis(10)).await;
+                        let now = progress.load(std::sync::atomic::Ordering::Relaxed);
+                        if now == last && now > 0 {
+                            break;
+                        }
+                        last = now;
+                    }
+                    window_filled = true;
+                    held.push(Box::new((filler, r)));
+                } else {
+                    held.push(Box::new((s, r)));
+                }
             } else {
                 let mut b = preamble;
                 b.extend(healthy_payload(k));
@@ -356,8 +394,9 @@ async fn exec_async(case: Arc<Case>) -> CaseResult {
         held.push(Box::new(req_send));
         _keep = keep;
     }
-    // the close value must reach all three pending calls
-    let deadline = tokio::time::Instant::now() + Duration::from_secs(5);
+    // the close value must reach all three pending calls (retransmissions through a lossy relay
+    // back off exponentially: allow more time there)
+    let deadline = tokio::time::Instant::now() + Duration::from_secs(if case.relay % 3 != 0 { 12 } else { 5 });
     loop {
         {
             let g = shared.lock().unwrap();
@@ -398,6 +437,12 @@ async fn exec_async(case: Arc<Case>) -> CaseResult {
     }
     if case.variant % 2 == 0 && case.wt_is_server && case.relay % 3 != 0 {
         labels.push(if case.relay % 3 == 1 { "relay:loss" } else { "relay:reorder" });
+    }
+    if window_filled {
+        labels.push("stall:unread-data-window-full");
+        if case.default_config {
+            labels.push("window-full+default-config");
+        }
     }
     labels.sort();
     labels.dedup();
@@ -466,7 +511,7 @@ pub fn run(run: &Run) {
         |c| judge(|| exec(c), true, "C07:blocked"),
         |c| serde_json::to_value(c).unwrap(),
     );
-    for l in ["stall:no-byte", "stall:partial-preamble", "stall:complete-preamble", "stall:unread-data", "stall:unawaited-opening", "relay:loss", "relay:reorder"] {
+    for l in ["stall:no-byte", "stall:partial-preamble", "stall:complete-preamble", "stall:unread-data", "stall:unawaited-opening", "stall:unread-data-window-full", "window-full+default-config", "relay:loss", "relay:reorder"] {
         run.essential(l);
     }
 }
